@@ -520,6 +520,7 @@ theorem polAct_step (H : IdFn) {N : Numbering} {g : Graph} {ds : DS} (hi : LInv 
               · have : N.pk n ≠ N.pk nid := fun e => hin (N.pkInj _ _ e)
                 rw [hne _ this]
                 exact h2.on n (fun e => hin (by cases e; rfl)) hn
+  | passthru c key v => exact polAct_keepA hpa (keepA_emit g _)
   | other => exact hpa
 
 theorem polAct_flush {N : Numbering} {g : Graph} (hi : PolAct N none g) : PolAct N none g.flush.1 := by
